@@ -14,7 +14,12 @@
 // block named like the includer's block k) x history (none; an earlier render in the same process - on the
 // same engine or on another one - that fails inside an include: a with-hash whose 2nd / 3rd entry divides
 // by zero, uses an unknown filter or calls a failing function, a target that fails, is missing, includes a
-// missing template or fails after an include of its own). Every program is rendered by the real engine and
+// missing template or fails after an include of its own) x definitions of the included template under names
+// the includer uses as well (a macro m, a from-imported m - also through an alias -, a module imported as u,
+// alone and together; in a template without any block, with a block, in the parent of an included template that
+// extends; the includer and the template in the middle of a nested route have their own m - a macro or
+// from-imported - and u, and call them after the include: in every loop iteration, in the block, after the
+// macro call, in the parent after the overridden block). Every program is rendered by the real engine and
 // compared with the reference model of model.go (transcribed from the property statement).
 package main
 
@@ -1034,24 +1039,26 @@ func enumerate(t *vlib.T) {
 		names, incMasks, setMasks, extras []int
 		chOws                             []ow
 		chNames, chIncMasks, chSetMasks   []int
-	}{ows: chOws, names: []int{0, 2}, incMasks: []int{3}, setMasks: []int{0, 15}, extras: []int{0},
-		chNames: []int{0}, chIncMasks: []int{3}, chSetMasks: []int{15}}
+		chMblks, chIsrcs                  []int
+	}{ows: chOws, names: []int{0, 2}, incMasks: []int{3}, setMasks: []int{15}, extras: []int{0},
+		chNames: []int{0}, chIncMasks: []int{3}, chSetMasks: []int{15}, chMblks: []int{0}, chIsrcs: []int{0}}
 	for _, x := range chOws {
 		if x.wstyle == 0 {
 			db.chOws = append(db.chOws, x)
 		}
 	}
 	if t.Thorough() {
-		db.ows, db.names, db.incMasks, db.extras = ows, []int{0, 2, 5}, []int{0, 3}, []int{0, 2}
+		db.ows, db.names, db.incMasks, db.setMasks, db.extras = ows, []int{0, 2, 5}, []int{0, 3}, []int{0, 15}, []int{0, 2}
+		db.chMblks, db.chIsrcs = []int{0, 1}, []int{0, 1}
 		db.chOws, db.chNames, db.chIncMasks, db.chSetMasks = chOws, []int{0, 2}, []int{0, 3}, []int{0, 15}
 	}
 	allPlaces := []int{pTop, pIf, pFor, pBlock, pMacro, pChildBlock, pNest0, pNest1, pNest2, pNest3, pNest4}
-	defs := func(sh shape, places []int, pd bool, xs []ow, names, incMasks, setMasks, extras []int) bool {
+	defs := func(sh shape, places []int, pd bool, xs []ow, names, incMasks, setMasks, extras, mblks, isrcs []int) bool {
 		for _, place := range places {
 			for _, target := range []int{tPlain, tExtends} {
 				for mdef := 1; mdef < nMdef; mdef++ {
-					for mblk := 0; mblk <= 1; mblk++ {
-						for isrc := 0; isrc <= 1; isrc++ {
+					for _, mblk := range mblks {
+						for _, isrc := range isrcs {
 							for _, extra := range extras {
 								for _, nm := range names {
 									for _, x := range xs {
@@ -1074,16 +1081,17 @@ func enumerate(t *vlib.T) {
 		}
 		return true
 	}
-	if !defs(shape{}, allPlaces, false, db.ows, db.names, db.incMasks, db.setMasks, db.extras) {
+	both := []int{0, 1}
+	if !defs(shape{}, allPlaces, false, db.ows, db.names, db.incMasks, db.setMasks, db.extras, both, both) {
 		return
 	}
 	for _, sh := range shapes() {
-		if !defs(sh, chainPlaces(sh), false, db.chOws, db.chNames, db.chIncMasks, db.chSetMasks, []int{0}) {
+		if !defs(sh, chainPlaces(sh), false, db.chOws, db.chNames, db.chIncMasks, db.chSetMasks, []int{0}, db.chMblks, db.chIsrcs) {
 			return
 		}
 	}
 	if t.Thorough() { // the tokenizer twin: a slice
-		if !defs(shape{}, allPlaces, true, chOws, []int{0}, []int{3}, []int{15}, []int{0}) {
+		if !defs(shape{}, allPlaces, true, chOws, []int{0}, []int{3}, []int{15}, []int{0}, both, both) {
 			return
 		}
 	}
@@ -1113,6 +1121,9 @@ func enumerate(t *vlib.T) {
 										if target == tExtends && extra == 0 && !ds && !pd {
 											// the included template and its parent define a block with the name of the includer's block k
 											for _, xb := range b.xblks {
+												if !t.Thorough() && sm != 0 && sm != 5 && sm != 10 && sm != 15 {
+													continue // quick: the set masks of the chain cases (the whole grid in the thorough tier)
+												}
 												if xb != 0 {
 													emit(cas{target: target, opts: x.opts, withMask: x.withMask, wstyle: x.wstyle, name: nm, place: place, incMask: incMask, setMask: sm, xblk: xb})
 												}
@@ -1156,8 +1167,10 @@ func main() {
 			"which of them override, with parent(), the block the includer renders after the include) x same-named blocks of an included template that extends is rendered on a fresh engine and compared with the reference model; " +
 			"history dimension: the same comparison after a render that failed inside an include (10 kinds of failure x {with, with only, with sandboxed, with only sandboxed} x same engine / another engine of the process; " +
 			"the failing render is repeated 3 times and must report an error every time) for every option set and with-map shape of the grid at a reduced set of placements, names and variable sets - the later render must equal the model as if nothing had happened; " +
+			"definitions dimension: the included template (block-free / with a block / extending) defines a macro m, from-imports an m (also `f as m`), imports a module as u, or two of these, while the includer (and the template in the middle of a nested route) " +
+			"has its own m (macro called as _self.m(), or from-imported and called as m()) and its own module u and calls m and u.f after the include (in every loop iteration, in the block, after the macro call, in the parent after the overridden block) - every option set, every placement, every chain shape; " +
 			"a case is non-trivial when information could flow in either direction (the includer defines a variable, `with` passes one, the included template sets one, runs a loop " +
-			"or defines a block/macro, also one with the name of a block of the includer's extends chain) or when the target cannot be rendered (missing / failing), which exercises the missing-template handling; a history case is always non-trivial (the earlier render defined a-d and passed a-d to the failing include)",
+			"or defines a block/macro/import, also one with the name of a block of the includer's extends chain or of a macro / module of the includer) or when the target cannot be rendered (missing / failing), which exercises the missing-template handling; a history case is always non-trivial (the earlier render defined a-d and passed a-d to the failing include)",
 		Assumptions: []string{
 			"the reference model (checks/c11/model.go) is a correct transcription of the property statement",
 			"visibility of outer variables and macros inside macros, option orders other than `ignore missing` `with` `only` `sandboxed`, `with` followed by a non-literal, and the value of loop variables after endfor are not fixed by the statement and are not generated",
